@@ -371,6 +371,33 @@ theorem restart_read_error_unfixed_refuted :
         { c with db := .obj [(1, .leaf 0)] } { version := true }).1.store.version = some 1) := by
   decide
 
+/-! ### the advertisement when the pairings cannot be listed (F66; `advertised` in HcModel/Config.lean) -/
+
+/-- Whatever is stored and whether or not the listing of the entities succeeds: the accessory advertises itself as
+    discoverable only when no controller pairing is stored; and when the listing succeeds, exactly then. -/
+theorem never_discoverable_while_paired (es : List Entity) (id : Nat) (d : Entity)
+    (hn : (names es).Nodup) (hd : lookup id es = some d) (listingFails : Bool) :
+    (advertised listingFails es = true → controllers id es = []) ∧
+    (listingFails = false → (advertised listingFails es = true ↔ controllers id es = [])) := by
+  have hp := paired_iff id es d hn hd
+  constructor
+  · intro h
+    simp only [advertised, Bool.not_eq_true', Bool.or_eq_false_iff] at h
+    have : (controllers id es).isEmpty = true := by
+      have := congrArg (!·) hp; simp [h.2] at this; simpa using this
+    simpa using this
+  · intro hf
+    subst hf
+    simp only [advertised, Bool.false_or]
+    rw [hp]; simp
+
+/-- F66 before the repair (`advertisedOld`): one pairing is stored, the listing fails, and the accessory announces that
+    it can be paired. -/
+theorem discoverable_while_paired_unfixed_refuted :
+    advertisedOld true [⟨10000, 20000, some 20000⟩, ⟨1, 501, none⟩] = true ∧
+    controllers 10000 [⟨10000, 20000, some 20000⟩, ⟨1, 501, none⟩] ≠ [] := by
+  decide
+
 end restart
 
 open Hc.FirstStart in
